@@ -525,6 +525,25 @@ theorem scale_inverse (r : Region) (hr : r.Inv) (f g : Factor) (R : List Rat) (b
     rw [e1, e2, key, key] at e3 e4
     rw [e3, e4, min_eq_left hlt.le, max_eq_right hlt.le]; exact ⟨rfl, rfl⟩
 
+/-- **translations add up**: two translations in a row move both corners by the sum of the vectors
+(either form at either step); with `w = -v` the region is back where it was -/
+theorem translate_compose (r : Region) (hr : r.Inv) (v w : List Rat) (b b' : Bool)
+    (x1 r1 x2 r2 : Region) (h1 : translateR r v b = .ok (x1, r1))
+    (h2 : translateR r1 w b' = .ok (x2, r2)) (a : Nat) (ha : a < r.ndim) :
+    r2.lo a = r.lo a + (v.getD a 0 + w.getD a 0) ∧ r2.hi a = r.hi a + (v.getD a 0 + w.getD a 0) := by
+  obtain ⟨hi1, hn1, _⟩ := stepR_ndim r hr (.translate v b) x1 r1 (by simpa [stepR] using h1)
+  obtain ⟨e1, e2⟩ := translate_affine r hr v b x1 r1 h1 a ha
+  obtain ⟨e3, e4⟩ := translate_affine r1 hi1 w b' x2 r2 h2 a (by rw [hn1]; exact ha)
+  rw [e3, e4, e1, e2]; constructor <;> ring
+
+/-- translating back restores the corners -/
+theorem translate_inverse (r : Region) (hr : r.Inv) (v w : List Rat) (b b' : Bool)
+    (x1 r1 x2 r2 : Region) (h1 : translateR r v b = .ok (x1, r1))
+    (h2 : translateR r1 w b' = .ok (x2, r2)) (a : Nat) (ha : a < r.ndim)
+    (hw : w.getD a 0 = - v.getD a 0) : r2.lo a = r.lo a ∧ r2.hi a = r.hi a := by
+  obtain ⟨e1, e2⟩ := translate_compose r hr v w b b' x1 r1 x2 r2 h1 h2 a ha
+  rw [e1, e2, hw]; constructor <;> ring
+
 /-- a zero factor on any axis is rejected by both forms -/
 theorem zero_factor_rejected (r : Region) (f : Factor) (ref : Option (List Rat)) (a : Nat) (ha : a < r.ndim)
     (hz : f.at a = 0) : (∃ e, scaleR r f ref true = .error e) ∧ (∃ e, scaleR r f ref false = .error e) := by
